@@ -95,7 +95,7 @@ def run(ck):
     for (cls, cname, text, want_ok), o in zip(cases, outs):
         st = o.split("\t")[0]
         dist["%s:%s" % (cls, st)] = dist.get("%s:%s" % (cls, st), 0) + 1
-        if st == "lexerr":
+        if st in ("lexerr", "unavailable"):
             continue
         accepted = st == "ok"
         if accepted and not want_ok:
